@@ -188,18 +188,20 @@ def host_cases(draw, tier):
         width = st.one_of(st.integers(1, 5), st.integers(1, 5), st.integers(6, 24))
         case['a'] = arith.operand_picks(draw, draw(width), allow_repeat=True)
         case['b'] = arith.operand_picks(draw, draw(width), allow_repeat=True)
-        if draw(st.integers(0, 5)) == 0:
+        if draw(st.integers(0, 3)) == 0:
             # one number is a part of the other, gate for gate (x times its own low or high part): mostly long numbers
             na = draw(st.one_of(st.integers(2, 8), st.integers(18, 26), st.integers(18, 26)))
             case['a'] = arith.operand_picks(draw, na, allow_repeat=True)
             case['a'].pop('zeros', None)
             k = draw(st.sampled_from([1, 1, na // 2, na - 1, draw(st.integers(1, na - 1))]))
-            part = case['a']['idx'][:k] if draw(st.booleans()) else case['a']['idx'][-k:]
+            # (mostly the low part: the first gates of a little-endian number, the last ones of a big-endian one)
+            low_first = (not case['be']) if draw(st.integers(0, 3)) else case['be']
+            part = case['a']['idx'][:k] if low_first else case['a']['idx'][-k:]
             case['b'] = {'idx': list(part), 'repeat': True}
             if draw(st.booleans()):
                 case['a'], case['b'] = case['b'], case['a']
             case['alias'] = None
-            if na >= 18 and draw(st.booleans()):
+            if na >= 18 and draw(st.integers(0, 3)):
                 case['mode'] = draw(st.sampled_from([m_ for m_ in ADD_MUL if m_.startswith('KARATSUBA')] or list(ADD_MUL)))
     else:
         case['mode'] = draw(st.sampled_from(SQ_MODES))
@@ -221,6 +223,22 @@ def host_cases(draw, tier):
             if key in case:
                 pos = draw(st.integers(0, len(case[key]['idx']) - 1))
                 case[key]['idx'][pos] = k
+    sentinel = '_PLACEHOLDER_STR_'
+    if not deep and draw(st.integers(0, 5)) == 0 and all(g[0] not in ('', sentinel) for g in case['host']['gates']):
+        # an operand gate that carries a label the library uses for bookkeeping of its own, at some position of a number
+        host = case['host']
+        k = draw(st.integers(0, len(host['gates']) - 1))
+        old = host['gates'][k][0]
+        r = lambda x: sentinel if x == old else x
+        case['host'] = dict(host, inputs=[r(x) for x in host['inputs']], outputs=[r(x) for x in host['outputs']],
+                            gates=[[r(l), t, [r(o) for o in ops]] for l, t, ops in host['gates']], style='mixed')
+        if case['host_route'].get('kind') == 'bench':
+            case['host_route'] = dict(case['host_route'], kind='emplace')
+        for key in ('a', 'b'):
+            if key in case:
+                pos = draw(st.integers(0, len(case[key]['idx']) - 1))
+                case[key]['idx'][pos] = k
+                case[key].pop('zeros', None)
     return case
 
 
@@ -287,7 +305,7 @@ SPEC = {
              'arbitrary (internal, repeated, shared) gates of a generated host circuit. Oracle: bit-sliced integer product of the '
              'reference operand vectors == decoded result in the requested endianness, documented result length, host '
              'discipline. Non-trivial: both widths >= 2.'
-             ' Added during the build: products past 256 bits, one number being a part of the other gate for gate, squarer widths 48-51, 53, 55, 58 (thorough 47-61, 63-65, 96, 97, 101, 103), lopsided shapes, host squares of 48-55 bits, the empty label on an operand of the deep (Karatsuba / split) paths, generators asked twice, predicted labels, refused preludes, constant-zero runs.'),
+             ' Added during the build: products past 256 bits, one number being a part of the other gate for gate, an operand gate labelled like the library's own placeholder, squarer widths 48-51, 53, 55, 58 (thorough 47-61, 63-65, 96, 97, 101, 103), lopsided shapes, host squares of 48-55 bits, the empty label on an operand of the deep (Karatsuba / split) paths, generators asked twice, predicted labels, refused preludes, constant-zero runs.'),
     'assumptions': ['reference tables from vlib/refsem.py; wide circuits only on sampled rows'],
     'subs': [Sub('host', host_cases, arith.with_refused_prelude(arith.with_label_collisions(check_host)), {'quick': 1200, 'thorough': 75000})],
     'sharded': {'width_sweep': sweep},
